@@ -458,3 +458,155 @@ fn extract_raw(raw: &crate::world::Raw) -> Option<SeedState> {
 
 #[allow(dead_code)]
 fn _unused(_: AskOrderStatus) {}
+
+// ------------------------------------------------------------------------------------------
+// migration grid: every stored version of a fixed list × every shape of the book × every kind
+// of migrate message, each followed by the same migration once more (idempotence), exit
+// probes and queries.  Deterministic complement to the sampled migration histories.
+
+#[allow(deprecated)]
+pub fn mig_grid() -> Vec<History> {
+    use ats_smart_contract::bid_order::BidOrderV2;
+    use ats_smart_contract::common::{Action, BlockInfo, Event, FeeInfo};
+    use ats_smart_contract::msg::MigrateMsg;
+    use ats_smart_contract::version_info::VersionInfoV1;
+    use cosmwasm_std::{Addr, Timestamp};
+    let sc = &scopes()[0];
+    let m = &sc.inst;
+    let info = ContractInfoV3 {
+        name: m.name.clone(),
+        bind_name: "".into(),
+        base_denom: m.base_denom.clone(),
+        convertible_base_denoms: m.convertible_base_denoms.clone(),
+        supported_quote_denoms: m.supported_quote_denoms.clone(),
+        approvers: m.approvers.iter().map(|a| Addr::unchecked(a.clone())).collect(),
+        executors: m.executors.iter().map(|a| Addr::unchecked(a.clone())).collect(),
+        ask_fee_info: Some(FeeInfo { account: Addr::unchecked("askfee1"), rate: "0.05".into() }),
+        bid_fee_info: Some(FeeInfo { account: Addr::unchecked("bidfee1"), rate: "0.1".into() }),
+        ask_required_attributes: vec![],
+        bid_required_attributes: vec![],
+        price_precision: m.price_precision,
+        size_increment: m.size_increment,
+    };
+    let versions = [
+        "0.14.9", "0.15.0", "0.15.5", "0.16.0", "0.16.1", "0.16.2", "0.16.3", "0.17.0", "0.18.2", "0.19.0", "0.19.1",
+        "0.19.2", "1.0.0", "1.0.1", "2.3.4", "1.0.0-rc1", "0.16.2-rc.1", "0.19.0-beta.1", "0.17.0+build5", "abc", "1.0",
+        "", "0.16.02", "v0.18.0", "0.18.0 ",
+    ];
+    let ask = (
+        A1.to_string(),
+        AskOrderV1 {
+            id: A1.to_string(),
+            owner: Addr::unchecked("seller1"),
+            class: AskOrderClass::Basic,
+            base: "base".into(),
+            quote: "quote1".into(),
+            price: "2".into(),
+            size: Uint128::new(20),
+        },
+    );
+    let v3 = |k: &str| {
+        (
+            k.to_string(),
+            BidOrderV3 {
+                base: coin(30, "base"),
+                accumulated_base: Uint128::new(10),
+                accumulated_quote: Uint128::new(30),
+                accumulated_fee: Uint128::new(3),
+                fee: Some(coin(9, "quote1")),
+                id: k.to_string(),
+                owner: Addr::unchecked("buyer1"),
+                price: "3".into(),
+                quote: coin(90, "quote1"),
+            },
+        )
+    };
+    let ev = |a: Action| Event { action: a, block_info: BlockInfo { height: 7, time: Timestamp::from_seconds(1_600_000_000) } };
+    let v2 = |k: &str| {
+        (
+            k.to_string(),
+            BidOrderV2 {
+                base: coin(30, "base"),
+                events: vec![
+                    ev(Action::Fill { base: coin(10, "base"), fee: Some(coin(2, "quote1")), price: "2.5".into(), quote: coin(25, "quote1") }),
+                    ev(Action::Refund { fee: Some(coin(1, "quote1")), quote: coin(5, "quote1") }),
+                    ev(Action::Reject { base: coin(10, "base"), fee: Some(coin(3, "quote1")), quote: coin(30, "quote1") }),
+                ],
+                fee: Some(coin(9, "quote1")),
+                id: k.to_string(),
+                owner: Addr::unchecked("buyer1"),
+                price: "3".into(),
+                quote: coin(90, "quote1"),
+            },
+        )
+    };
+    let k_lo = "0b000000-0000-4000-8000-000000000001";
+    let k_mid = "1a000000-0000-4000-8000-000000000002";
+    let k_hi = "9f000000-0000-4000-8000-000000000003";
+    let k_legacy = "c13f8888ca434a64ab1b1ca8d60aa49b";
+    type Shape = (Vec<(String, AskOrderV1)>, Vec<(String, BidOrderV3)>, Vec<(String, BidOrderV2)>);
+    let shapes: Vec<Shape> = vec![
+        (vec![], vec![], vec![]),
+        (vec![ask.clone()], vec![], vec![]),
+        (vec![ask.clone()], vec![v3(k_mid)], vec![]),
+        (vec![ask.clone()], vec![], vec![v2(k_lo), v2(k_hi)]),
+        (vec![], vec![v3(k_mid)], vec![v2(k_lo), v2(k_hi)]),
+        (vec![ask.clone()], vec![v3(k_lo)], vec![v2(k_hi)]),
+        (vec![], vec![], vec![v2(k_legacy)]),
+    ];
+    let none = MigrateMsg {
+        approvers: None,
+        ask_fee_rate: None,
+        ask_fee_account: None,
+        bid_fee_rate: None,
+        bid_fee_account: None,
+        ask_required_attributes: None,
+        bid_required_attributes: None,
+    };
+    let mut msgs = vec![none.clone()];
+    msgs.push(MigrateMsg { approvers: Some(vec![s("approver2")]), ..none.clone() });
+    msgs.push(MigrateMsg { approvers: Some(vec![]), ..none.clone() });
+    msgs.push(MigrateMsg { ask_fee_rate: Some(s("0.07")), ask_fee_account: Some(s("askfee2")), ..none.clone() });
+    msgs.push(MigrateMsg { ask_fee_rate: Some(s("")), ask_fee_account: Some(s("")), ..none.clone() });
+    msgs.push(MigrateMsg { bid_fee_rate: Some(s("")), bid_fee_account: Some(s("")), ..none.clone() });
+    msgs.push(MigrateMsg { ask_fee_rate: Some(s("0.07")), ..none.clone() });
+    msgs.push(MigrateMsg { bid_fee_rate: Some(s("abc")), bid_fee_account: Some(s("bidfee2")), ..none.clone() });
+    msgs.push(MigrateMsg { bid_fee_rate: Some(s("0.2")), bid_fee_account: Some(s("xy")), ..none.clone() });
+    msgs.push(MigrateMsg { ask_required_attributes: Some(vec![s("kyc")]), bid_required_attributes: Some(vec![]), ..none.clone() });
+    let mut out = vec![];
+    for (vi, ver) in versions.iter().enumerate() {
+        for (si, sh) in shapes.iter().enumerate() {
+            for (mi, msg) in msgs.iter().enumerate() {
+                // the full message list only on the interesting versions
+                if mi > 1 && !matches!(*ver, "0.16.1" | "0.16.2" | "0.18.2" | "0.19.1" | "1.0.0") {
+                    continue;
+                }
+                let state = SeedState {
+                    info: info.clone(),
+                    version: VersionInfoV1 { definition: "ats_smart_contract".into(), version: ver.to_string() },
+                    asks: sh.0.clone(),
+                    bids3: sh.1.clone(),
+                    bids2: sh.2.clone(),
+                };
+                let mut steps = vec![Step::Migrate { msg: msg.clone() }, Step::Migrate { msg: msg.clone() }];
+                for (k, a) in &sh.0 {
+                    steps.push(Step::Probe { sender: a.owner.to_string(), funds: vec![], msg: ExecuteMsg::CancelAsk { id: k.clone() } });
+                    steps.push(Step::Query { msg: QueryMsg::GetAsk { id: k.clone() } });
+                }
+                for k in sh.1.iter().map(|x| x.0.clone()).chain(sh.2.iter().map(|x| x.0.clone())) {
+                    steps.push(Step::Probe { sender: "buyer1".into(), funds: vec![], msg: ExecuteMsg::CancelBid { id: k.clone() } });
+                    steps.push(Step::Probe { sender: sc.exec.into(), funds: vec![], msg: ExecuteMsg::RejectBid { id: k.clone(), size: Some(Uint128::new(10)) } });
+                    steps.push(Step::Query { msg: QueryMsg::GetBid { id: k.clone() } });
+                }
+                steps.push(Step::Query { msg: QueryMsg::GetVersionInfo {} });
+                steps.push(Step::Query { msg: QueryMsg::GetContractInfo {} });
+                out.push(History {
+                    label: format!("mig_v{}_s{}_m{}", vi, si, mi),
+                    start: Start::Seed { markers: sc.markers.clone(), attrs: sc.attrs.clone(), state },
+                    steps,
+                });
+            }
+        }
+    }
+    out
+}
